@@ -77,7 +77,10 @@ class Netlist:
                 raise Unsupported(f"cell {ci}: kind/arity {c['kind']}/{len(c['in'])}")
             d = nets[c["out"]]["d"]
             if d["k"] != "cell" or d["i"] != ci:
-                raise Unsupported(f"cell {ci}: output net {c['out']} not driven by it")
+                # the aig round trip can emit the same cell twice for one sink net; identical twins drive the same value
+                o = nl["cells"][d["i"]] if d["k"] == "cell" and d["i"] < len(nl["cells"]) else None
+                if not (o and o["kind"] == c["kind"] and o["in"] == c["in"] and o["out"] == c["out"]):
+                    raise Unsupported(f"cell {ci}: output net {c['out']} not driven by it")
         self.port_bit = {}
         for p in nl["ports"]:
             if p["dir"] == "input":
